@@ -1,6 +1,6 @@
 """C18 - GF(2) routines (one clause: well-typed empty kernel; inputs not mutated)."""
 from ..rules_flow import Flow
-from ..rules_k import E1_typed_empties, E1_kernel_shape, K17_elimination_bounds, K17_column_sweep
+from ..rules_k import E1_typed_empties, E1_kernel_shape, K17_elimination_bounds, K17_column_sweep, K18_dimension_formula, K19_mod2_updates
 from ..rules_alias import A4_params
 
 FQS = ["f2_algebra.rref", "f2_algebra.rref_and_basis_change", "f2_algebra.rank", "f2_algebra.null_space"]
@@ -14,9 +14,13 @@ def run(tree, rep, tier):
     A4_params(rep, flow, only=FQS)
     K17_elimination_bounds(rep, flow)
     K17_column_sweep(rep, flow)
+    K18_dimension_formula(rep, flow)
+    K19_mod2_updates(rep, flow)
     rep.rules["A4"]["floor"] = 4
     rep.trusted += ["N1"]
     rep.decided += ["the null-space routine returns an integer-typed two-dimensional (k, cols) array also for k = 0 (E1)", "rref, rref_and_basis_change, rank, null_space never mutate their argument (A4)",
                     "where the eliminations are while-loops over (row cursor, column cursor), the cursors are bounded by the dimensions of A themselves (K17; a necessary condition of 'every row can be a pivot row')",
-                    "no elimination sweeps its column index only up to min(rows, cols), and the rank is not read off the diagonal of the reduced matrix (K17b; both necessary for wide matrices)"]
+                    "no elimination sweeps its column index only up to min(rows, cols), and the rank is not read off the diagonal of the reduced matrix (K17b; both necessary for wide matrices)",
+                    "rank and kernel share the pivot list: the rank is its length, and the kernel routine returns an empty basis early only when every column is a pivot column (K18: the structural half of rank + nullity = columns)",
+                    "every arithmetic row update of the eliminations is stored reduced into {0, 1} (`% 2`, `& 1`, exclusive-or) (K19)"]
     rep.not_decided += ["uniqueness of the RREF, rank, M*A = RREF, M*M_inv = I, exactness of the kernel (value-level arithmetic on runtime matrices)"]
